@@ -5,6 +5,8 @@ import (
 	"strconv"
 	"strings"
 
+	"github.com/influxdata/kapacitor/task/backend/scheduler"
+
 	"verifharness/kit"
 )
 
@@ -82,7 +84,24 @@ func genCase(r *kit.Rand, idx int, tier string) (out []string) {
 		default:
 			last = now + int64(r.Intn(15))
 		}
-		do(fmt.Sprintf("sched %d %d %d %d cron=%s", id, nsched, kit.Pick(r, offPool), last, kit.Esc(c)))
+		off := kit.Pick(r, offPool)
+		frac := int64(0)
+		if r.Chance(1, 6) { // sub-second part of the offset, same sign as the offset
+			frac = int64(1 + r.Intn(999))
+			if off < 0 || (off == 0 && r.Bool()) {
+				frac = -frac
+			}
+		}
+		// re-schedule of a task that is in flight with an EARLIER next time than the run in flight
+		h.r.mu.Lock()
+		if er := h.r.inflight[scheduler.ID(id)]; er != nil && r.Chance(1, 2) {
+			last = er.next - int64(5+r.Intn(30))
+			if last < 0 {
+				last = 0
+			}
+		}
+		h.r.mu.Unlock()
+		do(fmt.Sprintf("sched %d %d %d %d cron=%s frac=%d", id, nsched, off, last, kit.Esc(c), frac))
 		nsched++
 	}
 	sched()
